@@ -205,7 +205,46 @@ def t_compound(lines, fn):
     return cnt
 
 
-TRANSFORMS = {"rename": t_rename, "noop": t_noop, "preinc": t_preinc, "parens": t_parens, "unconst": t_unconst, "braces": t_braces, "ltplus": t_ltplus, "eqswap": t_eqswap, "compound": t_compound}
+def t_hoistcond(lines, fn):
+    """`if (C)` -> `const bool h = (C); if (h)` for an if that is a statement of a compound block (the previous code line ends with
+    `;`, `{` or `}`), on one line, with a condition free of assignments: the edit that hid a flag from the path explorer in seeds
+    C05-6 and C07-5.  Functions with a switch are skipped (a declaration may not be jumped over by a case label)."""
+    cnt = 0
+    lo, hi = fn["line"] - 1, min(fn["endline"], len(lines))
+    if any(re.search(r"\b(switch|case|default|goto)\b", lines[i]) for i in range(lo, hi)):
+        return 0
+    seen_body = False
+    for i in range(lo, hi):
+        l = lines[i]
+        if not seen_body:
+            if "{" in l:
+                seen_body = True
+            continue
+        m = re.match(r"^(\s*)if \((.*)\)\s*$", l.rstrip("\n"))
+        if not m or not _balanced(m.group(2)) or '"' in l or "//" in l:
+            continue
+        cond = m.group(2)
+        if re.search(r"(?<![=!<>])=(?!=)", cond) or "constexpr" in l or "," in cond and "(" not in cond:
+            continue
+        # a bare object (smart pointer, stream) converts to bool only contextually: `const bool h = (p);` does not compile
+        if not re.search(r"[<>!&|]|==", cond.replace("->", ".")):
+            continue
+        # previous code line
+        j = i - 1
+        while j >= lo and (not lines[j].strip() or lines[j].lstrip().startswith(("//", "#", "/*", "*"))):
+            j -= 1
+        if j < lo or lines[j].lstrip().startswith("#") or not lines[j].rstrip().endswith((";", "{", "}")):
+            continue
+        if any(lines[k].lstrip().startswith("#") for k in range(max(lo, i - 3), min(hi, i + 3))):
+            continue
+        # the if must not have an else-if partner that relies on textual position: fine, the declaration precedes the whole chain
+        name = "verif_hc_%d" % (i + 1)
+        lines[i] = "%sconst bool %s = (%s); if (%s)\n" % (m.group(1), name, cond, name)
+        cnt += 1
+    return cnt
+
+
+TRANSFORMS = {"hoistcond": t_hoistcond, "rename": t_rename, "noop": t_noop, "preinc": t_preinc, "parens": t_parens, "unconst": t_unconst, "braces": t_braces, "ltplus": t_ltplus, "eqswap": t_eqswap, "compound": t_compound}
 
 
 def variant(fns, transform, scratch):
